@@ -414,8 +414,8 @@ pub fn run(run: &mut Run) {
     run.rule = "for each generated input (two samples, a positive sample, counts (n,k), quantile q; f32/f64) every producer (arithmetic, geometric, harmonic, paired, unpaired, Wilson, Wald, quantile ranks and elements) is evaluated at a one-sided level L in (1/2,1), at two-sided 2L-1, and at a pair of grid levels >= 0.01 apart for all three kinds; non-trivial = Ok results on both sides of a relation; distinct by input hash and levels".into();
     crate::meanref::selftest_into(run);
     let (cases, shards, max_n) = match run.tier {
-        crate::engine::Tier::Quick => (6_000u32, 16usize, 400usize),
-        crate::engine::Tier::Thorough => (120_000, 64, 2000),
+        crate::engine::Tier::Quick => (24_000u32, 32usize, 400usize),
+        crate::engine::Tier::Thorough => (800_000, 256, 2000),
     };
     let seed = run.seed_for("random", 0);
     run.par(shards, |shard, obs| {
